@@ -982,6 +982,167 @@ def rule_owner_map(chk, imod):
                              % (where, pf.src(asg[0].value)[:80]))
 
 # ----------------------------------------------------------------------------
+# memoisation: every varying input of the cached computation is part of the key
+# ----------------------------------------------------------------------------
+def _defs_with_mutations(fn):
+    """name -> [value expressions that may flow into it]: assignments (also element stores and tuple targets),
+    augmented assignments, loop targets, and growth through .append/.extend/.update/.setdefault"""
+    out = {}
+    for st in pf.walk_no_nested(fn):
+        if isinstance(st, ast.Assign):
+            for t in st.targets:
+                for tt in (t.elts if isinstance(t, (ast.Tuple, ast.List)) else [t]):
+                    r = pf.base_name(tt)
+                    if r:
+                        out.setdefault(r, []).append((st, st.value))
+                        if isinstance(tt, ast.Subscript):
+                            out[r].append((st, tt.slice))
+        elif isinstance(st, ast.AugAssign):
+            r = pf.base_name(st.target)
+            if r:
+                out.setdefault(r, []).append((st, st.value))
+        elif isinstance(st, ast.For):
+            for n in ast.walk(st.target):
+                if isinstance(n, ast.Name):
+                    out.setdefault(n.id, []).append((st, st.iter))
+        elif isinstance(st, ast.Expr) and isinstance(st.value, ast.Call) and isinstance(st.value.func, ast.Attribute) \
+                and st.value.func.attr in ("append", "extend", "update", "setdefault", "insert", "add"):
+            r = pf.base_name(st.value.func.value)
+            if r:
+                for a in st.value.args:
+                    out.setdefault(r, []).append((st, a))
+    return out
+
+
+def _memo_sites(mod, fn):
+    """[(cache name, key expr, store stmt, stored value expr, membership test node)]"""
+    tests = {}
+    for n in pf.walk_no_nested(fn):
+        if isinstance(n, ast.Compare) and len(n.ops) == 1 and isinstance(n.ops[0], (ast.In, ast.NotIn)) \
+                and isinstance(n.comparators[0], ast.Name):
+            tests.setdefault(n.comparators[0].id, []).append(n)
+        if isinstance(n, ast.Call) and isinstance(n.func, ast.Attribute) and n.func.attr == "get" \
+                and isinstance(n.func.value, ast.Name) and n.args:
+            tests.setdefault(n.func.value.id, []).append(n)
+    out = []
+    for st in pf.walk_no_nested(fn):
+        if not isinstance(st, ast.Assign):
+            continue
+        for t in st.targets:
+            elts = list(t.elts) if isinstance(t, (ast.Tuple, ast.List)) else [t]
+            vals = list(st.value.elts) if isinstance(t, (ast.Tuple, ast.List)) and isinstance(st.value, ast.Tuple) \
+                and len(st.value.elts) == len(elts) else [st.value] * len(elts)
+            for tt, v in zip(elts, vals):
+                if isinstance(tt, ast.Subscript) and isinstance(tt.value, ast.Name) and tt.value.id in tests:
+                    for tn in tests[tt.value.id]:
+                        k = tn.left if isinstance(tn, ast.Compare) else tn.args[0]
+                        if pf.src(k) == pf.src(tt.slice):
+                            out.append((tt.value.id, tt.slice, st, v, tn))
+                            break
+    return out
+
+
+def rule_memo_key(chk, mod):
+    n_inst = 0
+    fns = [(fn.name, fn) for fn in mod.functions.values()]
+    for cname, cls in mod.classes.items():
+        fns += [("%s.%s" % (cname, n), f) for n, f in pf.methods(cls).items()]
+    for where, fn in fns:
+        sites = _memo_sites(mod, fn)
+        if not sites:
+            continue
+        defs = _defs_with_mutations(fn)
+        params = {a.arg for a in fn.args.args + fn.args.kwonlyargs if a.arg not in ("self", "cls")}
+        if fn.args.kwarg:
+            params.add(fn.args.kwarg.arg)
+        if fn.args.vararg:
+            params.add(fn.args.vararg.arg)
+        loopvars = {}
+        for x in pf.walk_no_nested(fn):
+            if isinstance(x, ast.For):
+                for n in ast.walk(x.target):
+                    if isinstance(n, ast.Name):
+                        loopvars[n.id] = x
+        done = set()
+        for cache, key, st, val, tn in sites:
+            if (cache, pf.src(key)) in done:
+                continue
+            done.add((cache, pf.src(key)))
+            persistent = cache in mod.assigns or any(isinstance(x, ast.Global) and cache in x.names for x in ast.walk(fn)) \
+                or cache not in defs or not any(isinstance(v, (ast.Dict, ast.Call)) for s_, v in defs.get(cache, [])
+                                                if isinstance(s_, ast.Assign) and isinstance(s_.targets[0], ast.Name))
+            # key components
+            kexprs = [key]
+            if isinstance(key, ast.Name):
+                kexprs = [v for s_, v in defs.get(key.id, []) if v is not None and not (isinstance(v, ast.Constant) and v.value is None)]
+            kcomp = set()
+            for ke in kexprs:
+                kcomp |= {n.id for n in ast.walk(ke) if isinstance(n, ast.Name)}
+            if isinstance(key, ast.Name):
+                kcomp.add(key.id)
+            # names upstream of key components (indices the key is computed from)
+            upstream, todo = set(), list(kcomp)
+            while todo:
+                nm = todo.pop()
+                if nm in upstream:
+                    continue
+                upstream.add(nm)
+                for s_, v in defs.get(nm, []):
+                    todo += [n.id for n in ast.walk(v) if isinstance(n, ast.Name)]
+            # inputs known to be empty/None whenever the cache is used (guards of the key definition and of the store)
+            neutral = set()
+            guard_nodes = [st] + [s_ for ke in ([key] if isinstance(key, ast.Name) else []) for s_, v in defs.get(ke.id, [])]
+            for gn in guard_nodes:
+                for t, pol, kind in cfgm.conditions_at(gn):
+                    tt = t
+                    neg = False
+                    while isinstance(tt, ast.UnaryOp) and isinstance(tt.op, ast.Not):
+                        tt, neg = tt.operand, not neg
+                    if isinstance(tt, ast.Name) and (neg == pol):
+                        neutral.add(tt.id)  # `if not kwargs:` -> kwargs is empty here
+                    if isinstance(tt, ast.Compare) and isinstance(tt.left, ast.Name) and len(tt.ops) == 1 \
+                            and isinstance(tt.comparators[0], ast.Constant) and tt.comparators[0].value is None \
+                            and ((isinstance(tt.ops[0], ast.Is) and pol != neg) or (isinstance(tt.ops[0], ast.IsNot) and pol == neg)):
+                        neutral.add(tt.left.id)
+            # what the cached value is computed from, cut at the key components
+            reached, todo = set(), [n.id for n in ast.walk(val) if isinstance(n, ast.Name)]
+            while todo:
+                nm = todo.pop()
+                if nm in reached or nm in kcomp or nm == cache:
+                    continue
+                reached.add(nm)
+                for s_, v in defs.get(nm, []):
+                    if any(pf.base_name(t_) == cache for t_ in (s_.targets if isinstance(s_, ast.Assign) else [])
+                           if isinstance(t_, ast.Subscript)):
+                        continue
+                    if isinstance(v, ast.Subscript) and pf.base_name(v) == cache:
+                        continue  # the hit path re-reads the cache
+                    todo += [n.id for n in ast.walk(v) if isinstance(n, ast.Name)]
+            varying = set()
+            for nm in reached:
+                if nm in neutral:
+                    continue
+                if nm in loopvars and nm not in upstream and any(x is st for x in ast.walk(loopvars[nm])):
+                    varying.add(nm)  # variable of a loop that encloses the cached computation
+                elif persistent and nm in params and nm not in upstream:
+                    varying.add(nm)
+            n_inst += 1
+            kind = "module-level (persists across calls)" if persistent else "per-call"
+            inst = "%s: %s cache %s[%s] is keyed by everything its values vary with" % (where, kind, cache, pf.src(key))
+            if not varying:
+                chk.ok("memo-key", inst, detail="key components %s" % sorted(kcomp - {key.id if isinstance(key, ast.Name) else ""}))
+            else:
+                chk.violation("memo-key", GG if mod.rel == GG else mod.rel, where, "%s[%s]" % (cache, pf.src(key)), st.lineno,
+                              "the value stored in the %s cache %s is computed from %s, which %s and %s not part of the "
+                              "key (%s): a later lookup with a different %s returns the entry computed for the earlier one"
+                              % (kind, cache, ", ".join(sorted(varying)),
+                                 "can differ between calls" if persistent else "changes between iterations",
+                                 "is" if len(varying) == 1 else "are",
+                                 ", ".join(pf.src(k_)[:80] for k_ in kexprs), sorted(varying)[0]), instance=inst)
+    chk.count("memo tables examined", n_inst)
+
+
+# ----------------------------------------------------------------------------
 def _analyse_own(chk):
     # helper calls are inlined one level (sa.inline) so that the rules see one body per anchored function
     prog = inline.inlined_program(chk.tree, [GG, GI])
@@ -997,6 +1158,9 @@ def _analyse_own(chk):
     chk.guard(rule_protocol, mod)
     chk.guard(rule_width, mod, imod)
     chk.guard(rule_truncation, mod)
+    chk.rule("memo-key", "tables used as memo in grid generation are keyed by every varying input of the cached value")
+    chk.guard(rule_memo_key, mod)
+    chk.floor("memo-key", 1, "per-element tables of gen_atomic_grids_cider")
     chk.rule("owner-map", "iatom_list assigns each point to the atom whose half-open block [ga_loc[a], ga_loc[a+1]) contains it")
     chk.guard(rule_owner_map, imod)
     chk.floor("owner-map", 1, "AtomicGridsIndexer.set_idx")
@@ -1042,6 +1206,27 @@ def analyse(chk):
                                                why='per-atom grid / harmonic tables must be looked up with the key function they were produced with'))
     chk.guard(lambda c_: core.include_findings(c_, 'C10', files=['ciderpress/lib/mod_cider/cider_grids.c', 'ciderpress/lib/mod_cider/sph_harm.c'], rules=None,
                                                why='a data race in the harmonic tabulation corrupts ylm'))
+
+
+
+def _seed_cache(with_prune):
+    def fn(text):
+        a = "            rad, dr = radi_method(n_rad, chg, ia, **kwargs)\n"
+        b = "            dr_tab[symb] = np.concatenate(drs).astype(np.float64)\n"
+        c = "\ndef gen_atomic_grids_cider("
+        if a not in text or b not in text or c not in text:
+            return None
+        key = "(symb, radi_method, n_rad, n_ang, full_lmax%s)" % (", prune" if with_prune else "")
+        text = text.replace(c, "\n_ELEMENT_TAB_CACHE = {}\n\n" + c, 1)
+        text = text.replace(a, "            cache_key = None\n            if not kwargs:\n                cache_key = %s\n"
+                               "                if cache_key in _ELEMENT_TAB_CACHE:\n"
+                               "                    (atom_grids_tab[symb], lmax_tab[symb], rad_loc_tab[symb], ylm_tab[symb],\n"
+                               "                     ylm_loc_tab[symb], rad_tab[symb], dr_tab[symb]) = _ELEMENT_TAB_CACHE[cache_key]\n"
+                               "                    continue\n" % key + a, 1)
+        return text.replace(b, b + "            if cache_key is not None:\n                _ELEMENT_TAB_CACHE[cache_key] = (\n"
+                                   "                    atom_grids_tab[symb], lmax_tab[symb], rad_loc_tab[symb], ylm_tab[symb],\n"
+                                   "                    ylm_loc_tab[symb], rad_tab[symb], dr_tab[symb])\n", 1)
+    return fn
 
 
 def mutants(tree):
@@ -1100,6 +1285,7 @@ def mutants(tree):
                "tmp[self.ga_loc[a] + 1 : self.ga_loc[a + 1] + 1] = a", expect="owner-map"),
         Mutant("per-atom fill skips the last atom", GI, "        for a in range(self.natm):\n            tmp[self.ga_loc[a]",
                "        for a in range(self.natm - 1):\n            tmp[self.ga_loc[a]", expect="owner-map"),
+        Mutant("module-level element cache without prune in the key", GG, fn=_seed_cache(False), expect="memo-key"),
         Mutant("truncation removed", GG, "                ylm[:, nlm_shl:] = 0.0\n", "", expect="truncation"),
         Mutant("truncation keeps the wrong side", GG, "ylm[:, nlm_shl:] = 0.0", "ylm[:, :nlm_shl] = 0.0",
                expect="truncation"),
